@@ -20,7 +20,7 @@ namespace TTV.Matchers
 /-! ## exceptions -/
 inductive ExcCls
   | baseException | exception | typeError | attributeError | valueError | lookupError | keyError
-  | assertionError | keyboardInterrupt | systemExit
+  | assertionError | keyboardInterrupt | systemExit | notImplementedError
   | oracleMiss   -- pseudo class: an opaque leaf was asked about a value its table does not list
   | anyCls       -- pseudo class: canonical form of a propagated class that depends on dict/set order
 deriving DecidableEq, Repr
@@ -37,6 +37,7 @@ def ExcCls.ancestors : ExcCls → List ExcCls
   | .assertionError => [.assertionError, .exception, .baseException]
   | .keyboardInterrupt => [.keyboardInterrupt, .baseException]
   | .systemExit => [.systemExit, .baseException]
+  | .notImplementedError => [.notImplementedError, .exception, .baseException]
   | .oracleMiss => [.oracleMiss]
   | .anyCls => [.anyCls]
 
@@ -203,6 +204,11 @@ def callV : V → Sum V Exc
   | _ => .inr ⟨.typeError, -1⟩            -- "object is not callable", raised inside Raises' `try`
 
 /-! ## matcher AST -/
+/-- shape of the message of a `MatchesPredicate`: exactly one conversion (`'%s is not even'`, what the
+docstring asks for), none (`'odd'`), the empty string, two (`'%s %s'`) -/
+inductive MsgKind | one | zero | empty | two
+deriving DecidableEq, Repr
+
 inductive Leaf
   | equals (e : V) | notEquals (e : V) | is_ (e : V) | lessThan (e : V) | greaterThan (e : V)
   | sameMembers (e : List V) | startsWith (e : V) | endsWith (e : V) | contains (e : V)
@@ -214,6 +220,9 @@ inductive Leaf
   matchers, `Warnings`, `MatchesPredicate` over a foreign predicate): verdict table from the harness's
   independent oracle. -/
   | opaque (id : Nat) (dom : List V) (res : List Verdict)
+  /-- `MatchesPredicate(predicate, message)` over a harness predicate (oracle table as for `opaque`); the
+  mismatch is built with `message % matchee`, `msg` says how many `%` conversions the message has -/
+  | predicate (id : Nat) (msg : MsgKind) (dom : List V) (res : List Verdict)
 deriving Repr
 
 inductive DictKind | exact | contains | containedBy
@@ -247,6 +256,19 @@ def lookupTbl (v : V) : List V → List Verdict → Verdict
   | _, _ => .raised .oracleMiss
 
 def excTypeMatches (cs : List ExcCls) (e : Exc) : Bool := cs.any (isSub e.cls)
+
+/-- does `message % matchee` raise `TypeError`?  A tuple matchee supplies one argument per member (an
+exc_info tuple has three); dicts, lists and bytes pass `PyMapping_Check` (usable by any message without
+conversions or with one); anything else is one argument. -/
+def mappingLike : V → Bool
+  | .dict _ _ => true
+  | .list _ => true
+  | .bytes _ => true
+  | _ => false
+def fmtErr (msg : MsgKind) (v : V) : Bool :=
+  match v with
+  | .exc _ true => true                       -- 3 arguments, no message kind here takes three
+  | _ => if mappingLike v then msg == .two else msg != .one
 
 def leafImpl : Leaf → V → Verdict
   | .equals e, v => .ofBool (veq v e)
@@ -283,6 +305,9 @@ def leafImpl : Leaf → V → Verdict
       | .inl _ => .mismatch                              -- "returned"
       | .inr e => if isUser e.cls then .match else .raised e.cls
   | .opaque _ dom res, v => lookupTbl v dom res
+  | .predicate _ msg dom res, v => match lookupTbl v dom res with
+      | .mismatch => if fmtErr msg v then .raised .typeError else .mismatch    -- Mismatch(self.message % x)
+      | r => r
 
 /-! ## sequencing of already computed verdicts
 The model is pure, so `match()` of every part can be computed up front; the loops of the code (which
